@@ -253,6 +253,9 @@ class AlignmentCollector:
     def process(self):
         alignment_storage = BAMAlignmentStorage(self.bam_merger) if not self.params.high_memory else InMemoryAlignmentStorage()
         for bam_index, alignment in self.bam_merger.get():
+            if alignment.is_unmapped:
+                # an unaligned record that carries a position (e.g. placed next to its mate); counted with the unaligned reads of the file
+                continue
             if alignment.is_secondary:
                 self.alignment_stat_counter.add(AlignmentType.secondary)
             elif alignment.is_supplementary:
@@ -300,7 +303,7 @@ class AlignmentCollector:
             corrector = VoidExonCorrector()
 
         for bam_index, alignment in alignment_storage:
-            if alignment.reference_id == -1 or alignment.is_supplementary or \
+            if alignment.reference_id == -1 or alignment.is_unmapped or alignment.is_supplementary or \
                     (self.params.no_secondary and alignment.is_secondary):
                 continue
 
@@ -358,7 +361,7 @@ class AlignmentCollector:
         assignment_storage = []
 
         for bam_index, alignment in alignment_storage:
-            if alignment.reference_id == -1 or alignment.is_supplementary or \
+            if alignment.reference_id == -1 or alignment.is_unmapped or alignment.is_supplementary or \
                     (self.params.no_secondary and alignment.is_secondary):
                 continue
 
